@@ -10,23 +10,33 @@
                  have moved above this share) and whatever they answer to the forwarded solution;
      CMmForwards per scenario: the number of blobs forwarded to a merge-mined chain that no miner was given (must be 0:
                  a share is judged against the very blob of its job). *)
-From Virel Require Import Lib.CheckLib Lib.Config.
+From Virel Require Import Lib.CheckLib Lib.Config Model.StratumMM.
 Open Scope N_scope.
 Open Scope bool_scope.
 
 Inductive c15mm_case :=
 | CMmShare (scenario chains : N) (own_ok sorted_ok in_history replied_ok pow_rejected stale : bool)
+           (job_diff now_before now_after pow : N)   (* difficulty of the job's target; easiest difficulty recorded for a chain just
+                                                         before / after the submit (0 = none); the share's 128-bit value *)
 | CMmForwards (scenario alien : N).
 
 Definition c15mm_corr (cfg : config) (c : c15mm_case) : bool :=
   match c with
-  | CMmShare _ chains _ _ _ replied_ok pow_rejected _ => (1 <=? chains) && (chains <? 16) && negb (replied_ok && pow_rejected)
+  | CMmShare _ chains _ _ in_history replied_ok pow_rejected stale jd nb na pow =>
+      (1 <=? chains) && (chains <? 16) && negb (replied_ok && pow_rejected) &&
+      (* the harness' flag: the chains' recorded difficulties have moved above this share *)
+      Bool.eqb stale (negb (mm_meets pow nb && mm_meets pow na)) &&
+      (* the model of the repaired code (own difficulty = mainnet's minimum, never met by these shares): the verdict on a
+         share of a job in the history is low-diff iff the model says so; the two readings of the chains' difficulties
+         bracket the one the node used *)
+      implb (in_history && (nb =? na))
+            (Bool.eqb pow_rejected (match mm_judge (min_difficulty cfg) jd [nb] pow with VLowDiff => true | _ => false end))
   | CMmForwards _ _ => true
   end.
 
 Definition c15mm_prop (cfg : config) (c : c15mm_case) : N :=
   match c with
-  | CMmShare _ _ own_ok sorted_ok in_history replied_ok pow_rejected stale =>
+  | CMmShare _ _ own_ok sorted_ok in_history replied_ok pow_rejected stale _ _ _ _ =>
       first_fail [(41, own_ok); (42, sorted_ok);
                   (43, implb in_history (negb pow_rejected));     (* never rejected for failing proof of work *)
                   (44, implb in_history replied_ok)]
